@@ -3,9 +3,11 @@
    Depth-first enumeration of the schedules of a client program on a machine of Base/Conc.v:
    at every node each unfinished thread may move; branches whose trace leaves the property's
    domain (lb < 0) are cut; the first node whose trace satisfies [bad] is returned as the
-   schedule leading to it.  [fuel] bounds the depth (the pinned Wait loop can spin).          *)
+   schedule leading to it.  [fuel] bounds the depth (the pinned Wait loop can spin), [pre] the
+   number of preemptions.          *)
 From Coq Require Import List Arith ZArith Bool.
-From GT Require Import Base.Conc WGModel WGSpec.
+From GT Require Import Base.Conc.
+From GT Require Import WGModel WGSpec.
 Import ListNotations.
 
 Section Search.
@@ -19,8 +21,19 @@ Section Search.
     | t :: r => match f t with Some x => Some x | None => first_some f r end
     end.
 
-  Fixpoint dfs (fuel : nat) (cf : config Sh Loc call ret obs) (rsched : list nat)
-    : option (list nat) :=
+  (* [pre] = preemption budget: switching away from a thread that could still move costs 1 *)
+  Definition switch_cost (cf : config Sh Loc call ret obs) (last : option nat) (t : nat) : nat :=
+    match last with
+    | None => 0
+    | Some l => if Nat.eqb l t then 0
+                else match nth_error (thr cf) l with
+                     | Some th => if finished th then 0 else 1
+                     | None => 0
+                     end
+    end.
+
+  Fixpoint dfs (fuel pre : nat) (cf : config Sh Loc call ret obs) (last : option nat)
+           (rsched : list nat) : option (list nat) :=
     if bad (tr cf) then Some (rev rsched)
     else match fuel with
          | O => None
@@ -30,8 +43,11 @@ Section Search.
                   match nth_error (thr cf) t with
                   | Some th =>
                       if finished th then None
+                      else if Nat.ltb pre (switch_cost cf last t) then None
                       else let cf' := stepf cf t in
-                           if well_behaved (tr cf') then dfs f cf' (t :: rsched) else None
+                           if well_behaved (tr cf')
+                           then dfs f (pre - switch_cost cf last t) cf' (Some t) (t :: rsched)
+                           else None
                   | None => None
                   end)
                (seq 0 (length (thr cf)))
@@ -67,7 +83,11 @@ Definition wgo_cfg0 (progs : list (list call)) : wgo_config :=
 Definition wgo_step : wgo_config -> nat -> wgo_config :=
   step wgo_begin wgo_mstep wg_fatal wgo_observe wgo_site.
 
-Definition search_c01 (fuel : nat) progs := dfs wg_step c01_bad fuel (wg_cfg0 progs) [].
-Definition search_c02 (fuel : nat) progs := dfs wg_step c02_bad fuel (wg_cfg0 progs) [].
-Definition search_c01_orig (fuel : nat) progs := dfs wgo_step c01_bad fuel (wgo_cfg0 progs) [].
-Definition search_c02_orig (fuel : nat) progs := dfs wgo_step c02_bad fuel (wgo_cfg0 progs) [].
+Definition search_c01 (fuel pre : nat) progs :=
+  dfs wg_step c01_bad fuel pre (wg_cfg0 progs) None [].
+Definition search_c02 (fuel pre : nat) progs :=
+  dfs wg_step c02_bad fuel pre (wg_cfg0 progs) None [].
+Definition search_c01_orig (fuel pre : nat) progs :=
+  dfs wgo_step c01_bad fuel pre (wgo_cfg0 progs) None [].
+Definition search_c02_orig (fuel pre : nat) progs :=
+  dfs wgo_step c02_bad fuel pre (wgo_cfg0 progs) None [].
